@@ -533,7 +533,7 @@ func (e *Env) index(x *SExpr) Term {
 			if isB {
 				return intT(fmt.Sprintf("(str.to_code (str.at (select %s (s_base %s)) (+ (s_off %s) %s)))", fe.hget(e.st, h), a.S, a.S, i.S))
 			}
-			return Term{fmt.Sprintf("(select (select %s (s_base %s)) (+ (s_off %s) %s))", fe.hget(e.st, h), a.S, a.S, i.S), fe.sorts.SortOf(t.Elem()), t.Elem()}
+			return Term{fe.elemRead(fe.hget(e.st, h), fe.heapSorts[h], a.S, i.S, fe.sorts.SortOf(t.Elem())), fe.sorts.SortOf(t.Elem()), t.Elem()}
 		case *types.Map:
 			_, v := fe.mapHeaps(t)
 			return Term{fmt.Sprintf("(select (select %s %s) %s)", fe.hget(e.st, v), a.S, i.S), fe.sorts.SortOf(t.Elem()), t.Elem()}
@@ -800,6 +800,18 @@ func (e *Env) callref(x *SExpr) Term {
 					break
 				}
 				if c.block == e.curCall.block && contains(c.names, x.Str) {
+					pick = c
+				}
+			}
+			if pick != nil {
+				cs, err = pick, nil
+			}
+		}
+		if err != nil && e.curCall == nil && e.at != nil && !strings.Contains(x.Str, "#") {
+			// ambiguous in a postcondition: the last matching call in the returning block
+			var pick *CallSite
+			for _, c := range fe.calls {
+				if c.block == e.at && contains(c.names, x.Str) {
 					pick = c
 				}
 			}
